@@ -23,7 +23,7 @@ LEVEL_TEXT = (
     'inverse map is ambiguous); velocity_to_bin and velocity_bin_to_velocity share one bin-size function and are a floor-division / '
     'multiplication pair around MIN_MIDI_VELOCITY. Exhaustive enumeration of indices is running the code and is not done.')
 LEVEL_NOTE = 'Trusted: constant folding; integer arithmetic of Python (// and * exact); the pitch-class name oracle.'
-TECHNIQUE = 'static analysis: interface conformance over the class hierarchy, inverse-pair recognition in rational normal form after substitution, shared-width agreement, folded-table checks against an oracle'
+TECHNIQUE = 'static analysis: interface conformance over the class hierarchy, inverse-pair recognition in rational normal form after substitution, shared-width agreement, folded-table checks against an oracle, per-object state (no class-body mutable written through self)'
 DESIGN_REF = 'DESIGN.md section 4 (C09)'
 EXPLANATION = ('IFACE over OneHotEncoding; INV inverse pieces for melody, chords, performance, note density; WIDTH num_classes agreement; TAB pitch '
                'class names, chord suffix qualities, drum table disjointness, MIDI bounds; VEL velocity bin pair.')
@@ -939,3 +939,4 @@ EXPLANATION += (' Round 7: ' + 'INV/melody-scenarios (three ranges x five events
 EXPLANATION += (' Rounds 9-10: ' + 'EVENT/validator-admits (the PerformanceEvent validator evaluated on twelve decodable events); CHORD/label-below-num-classes (interval of every returned label against num_classes).')
 EXPLANATION += (' Round 11: ' + 'CHORD/regex-group-into-table shared from C15; PITCHCLASS/reduced locates a one-sided wrap.')
 EXPLANATION += (' Round 12: ' + 'DRUMS/default-table-only-as-fallback; CHORD/wrap-both-ways shared from C15.')
+EXPLANATION += (' Round 14: ' + 'STATE/per-object for the one-hot encodings; VEL/right-inverse located for a capped lower bound; CHORD/alteration-accumulates shared from C15.')
